@@ -256,28 +256,8 @@ func runC05(c *Ctx) {
 			}
 		}
 	}
-	// websocket conns: every store to websocket.Conn.Execute is parser.Execute, a bound Conn.Execute or SyncExecutor
-	{
-		n := 0
-		for _, f := range c.pkgFuncs("websocket") {
-			for _, st := range c.P.StoresTo(f, "websocket.Conn.Execute") {
-				n++
-				key := fmt.Sprintf("%s: websocket Execute#%d", c.P.FuncName(ir.Outermost(f)), n)
-				v := ir.Resolve(st.Val)
-				ok := false
-				if c.P.LoadedField(v) == "nbhttp.Parser.Execute" {
-					ok = true
-				}
-				if b, _ := boundMethod(v); b != nil && c.P.FuncName(b) == "(*nbio.Conn).Execute" {
-					ok = true
-				}
-				if fn, isFn := v.(*ssa.Function); isFn && c.P.FuncName(fn) == "nbhttp.SyncExecutor" {
-					ok = true
-				}
-				c.Cond(ok, "C05.O6", key, c.Pos(st), "inherits a serialising executor", "the WebSocket connection's executor is "+c.P.Desc(v)+": message callbacks would not be serialised with the connection's jobs")
-			}
-		}
-	}
+	wsExecutorStores(c, "C05.O6")
+	wsSyncCallScope(c, "C05.O6")
 }
 
 func rw(w bool) string {
@@ -342,3 +322,32 @@ func (c *Ctx) closureStoredTo(g *ssa.Function, field string) bool {
 	}
 	return false
 }
+
+// wsExecutorStores: every store to websocket.Conn.Execute is parser.Execute or the bound
+// Execute of an nbio.Conn; the inline executor is not assigned to poller-served connections.
+func wsExecutorStores(c *Ctx, ob string) {
+
+		n := 0
+		for _, f := range c.pkgFuncs("websocket") {
+			for _, st := range c.P.StoresTo(f, "websocket.Conn.Execute") {
+				n++
+				key := fmt.Sprintf("%s: websocket Execute#%d", c.P.FuncName(ir.Outermost(f)), n)
+				v := ir.Resolve(st.Val)
+				ok := false
+				if c.P.LoadedField(v) == "nbhttp.Parser.Execute" {
+					ok = true
+				}
+				if b, _ := boundMethod(v); b != nil && c.P.FuncName(b) == "(*nbio.Conn).Execute" {
+					ok = true
+				}
+				why := "the WebSocket connection's executor is " + c.P.Desc(v) + ": message callbacks would not be serialised with the connection's jobs"
+				if fn, isFn := v.(*ssa.Function); isFn && c.P.FuncName(fn) == "nbhttp.SyncExecutor" {
+					// the inline executor bypasses the connection's job list: the close job that the
+					// engine queues with MustExecute then runs at once, next to a running message
+					// callback.  A connection read by its own goroutine inherits it through its parser.
+					why = "the WebSocket connection is given the inline executor at " + c.Pos(st) + " although it is served by the poller: its callbacks bypass the connection's job list, so the close job queued with MustExecute overlaps a running message callback"
+				}
+				c.Cond(ok, ob, key, c.Pos(st), "inherits a serialising executor", why)
+			}
+		}
+	}
